@@ -50,6 +50,16 @@ def jde_inputs(seed, shard, nb, nr):
             out.append(x)
         for k in (1, -1, 2, -2):
             out.append(_nudge(base, k))
+    # every midnight (and noon) from mid-February to mid-March of the century years: the Gregorian century correction of
+    # the inverse recipe switches on 1 March of 1700, 1800, 1900, 2100, ... (shards partition the centuries)
+    nsh = 8
+    for c in range(-4700, 10000, 100):
+        if (c // 100) % nsh != shard % nsh:
+            continue
+        b0 = math.floor(1721423.5 + 365.25 * (c - 1)) + 0.5
+        for j in range(30, 90):
+            out.append(b0 + j)
+            out.append(b0 + j + 0.5)
     for _ in range(nr):
         out.append(rng.uniform(0.0, 5.4e6))
     out = sorted(set(x for x in out if 0.0 <= x <= 5.4e6))
@@ -172,9 +182,29 @@ def gen_cmp(seed, shard, n):
                 x1, x2 = a.jde(), (other.jde() if isinstance(other, Epoch) else other)
                 if x1 != x2 and abs(x1 - x2) < 1e-6:
                     continue
-                yield {"k": "cmp", "x1": fx(x1), "x2": fx(x2), "x1f": x1, "x2f": x2,
-                       "lt": int(a < other), "le": int(a <= other), "eq": int(a == other), "ne": int(a != other),
-                       "gt": int(a > other), "ge": int(a >= other), "num": 0 if isinstance(other, Epoch) else 1}
+                yield _cmp_event(a, other, x1, x2, 0)
                 cnt += 1
                 if cnt >= n:
-                    return
+                    break
+            if cnt >= n:
+                break
+        if cnt >= n:
+            break
+    # nearly coincident instants (1 ulp .. 1e-9 day apart), at every magnitude of JDE: <, <=, >, >= are exact orders of the
+    # JDE values; == and != use the documented tolerance and are not judged for these pairs (close = 1)
+    for base in [0.5, 1.0, 1000.25, 400000.5, 524287.875, 2451545.0, 5.3e6] + [rng.uniform(0, 5.4e6) for _ in range(12)]:
+        for d in (_nudge(base, 1) - base, _nudge(base, 3) - base, 5e-11, 2e-10, 1e-9):
+            hi = base + d
+            if hi == base:
+                continue
+            for (p, q) in ((base, hi), (hi, base)):
+                a = Epoch(p)
+                for other in (Epoch(q), q):
+                    yield _cmp_event(a, other, a.jde(), other.jde() if isinstance(other, Epoch) else other, 1)
+
+
+def _cmp_event(a, other, x1, x2, close):
+    from pymeeus.Epoch import Epoch
+    return {"k": "cmp", "x1": fx(x1), "x2": fx(x2), "x1f": x1, "x2f": x2, "close": close,
+            "lt": int(a < other), "le": int(a <= other), "eq": int(a == other), "ne": int(a != other),
+            "gt": int(a > other), "ge": int(a >= other), "num": 0 if isinstance(other, Epoch) else 1}
